@@ -14,7 +14,7 @@ from vlib.cosched.sched import Abort
 
 SOURCES = ["queued", "adopt:outside", "adopt:threading", "adopt:other", "service",
            "execute:outside", "execute:other", "execute:threading", "execute:early",
-           "adopt:own-loop"]
+           "adopt:own-loop", "adopt:in-section"]
 
 
 class Scenario:
@@ -52,6 +52,10 @@ class Scenario:
                     outside.append((op, desc))
                 elif where == "early":
                     early.append(desc)
+                elif where == "in-section":
+                    kit.submit({"id": "carrier%d" % index, "flavour": flavour,
+                                "steps": [("sleep", 0.5), ("section-adopt", desc),
+                                          ("forever", 0.5)]})
                 elif where == "own-loop":
                     kit.submit({"id": "carrier%d" % index, "flavour": "threading",
                                 "steps": [("sleep", 0.5), ("adopt-own-loop", desc), ("block",)]})
